@@ -35,6 +35,8 @@ from collections import Counter
 VERIF = os.path.dirname(os.path.dirname(os.path.abspath(__file__)))
 REPO = os.path.abspath(os.environ.get("VERIF_REPO", "/repo"))
 NSHARDS = 16
+# executions per shard of the coverage-guided stage (pbt/fuzz.py); a module may override with FUZZ = {"quick": n, "thorough": m}
+FUZZ_DEFAULT = {"quick": 0, "thorough": 6000}
 
 if REPO not in sys.path[:1]:
     sys.path.insert(0, REPO)
@@ -474,6 +476,15 @@ def run(prop_id, tier):
                 raise HarnessError(payload)
             total.merge(payload)
 
+        # 1b. coverage-guided stage (atheris/libFuzzer over the same strategies and judge); the pool is idle meanwhile
+        fuzz_info = None
+        fuzz_runs = int(os.environ.get("VERIF_FUZZ_RUNS", getattr(mod, "FUZZ", FUZZ_DEFAULT).get(tier, 0)))
+        if fuzz_runs > 0:
+            from pbt import fuzz as _fuzz
+            facc, fuzz_info = _fuzz.run_stage(prop_id, tier, seed, fuzz_runs, procs, limit)
+            if facc is not None:
+                total.merge(facc)
+
         known, fixed = load_known(prop_id)
         new_sigs = sorted(s for s in total.findings if s not in known)
 
@@ -549,6 +560,7 @@ def run(prop_id, tier):
             "excluded_known": excluded,
             "new_signatures": [v[0] for v in violations],
             "replay_files": len(replay_files),
+            "coverage_guided_stage": fuzz_info,
         },
         "assumptions": list(mod.ASSUMPTIONS),
         "wall_s": round(wall, 2),
@@ -637,6 +649,10 @@ def main(argv):
         except HarnessError as e:
             print("HARNESS-ERROR: %s" % e, file=sys.stderr)
             return 2
+    if len(argv) >= 7 and argv[0] == "fuzzshard":
+        from pbt import fuzz as _fuzz
+        _fuzz.shard_main(argv[1].upper(), argv[2], int(argv[3]), int(argv[4]), int(argv[5]), argv[6])
+        return 0
     print("usage: python -m pbt.core run <ID> <quick|thorough> | replay <file>", file=sys.stderr)
     return 2
 
